@@ -13,7 +13,7 @@
                        empty vectors skipped, each vector sorted by (file, lines). *)
 From Coq Require Import List String NArith ZArith Bool Permutation.
 Import ListNotations.
-From Solstat Require Import Bytes Tables Sections Report ReportReader ReportProof.
+From Solstat Require Import Bytes Tables Sections Report ReportReader ReportCategory ReportProof ReportFullFinite ReportFull.
 Local Open Scope string_scope.
 Local Open Scope list_scope.
 
@@ -70,6 +70,42 @@ Theorem section_iff_findings_qa : forall (F : findings QualityAssurance) p, wf_f
   (has_line (key_line (qa_section p)) (generate_qa_report F) <-> has_finding p F).
 Proof. exact qa_section_iff_spec. Qed.
 Print Assumptions section_iff_findings_qa.
+
+(* ---- the whole report file (generate_report = what is written to solstat_report.md), read by
+        a reader that knows the key lines of all 30 patterns.
+        items_full V O Q = the rendered (pattern, vector) pairs of the file, in order:
+          vulnerabilities by severity then discriminant, optimizations, QA (tagged AnyVul/AnyOpt/AnyQa);
+        any_section = the section text of a pattern of any category *)
+Theorem report_roundtrip : forall V O Q, names_without_lf V -> names_without_lf O -> names_without_lf Q ->
+  map drop_heading (read_full_report (generate_report V O Q)) = triples (items_full V O Q).
+Proof. exact full_roundtrip_spec. Qed.
+Print Assumptions report_roundtrip.
+
+Theorem report_entries_exact : forall V O Q, names_without_lf V -> names_without_lf O -> names_without_lf Q ->
+  Permutation (map drop_heading (read_full_report (generate_report V O Q)))
+              (triples (tag_findings AnyVul V ++ tag_findings AnyOpt O ++ tag_findings AnyQa Q)).
+Proof. exact full_entries_exact_spec. Qed.
+Print Assumptions report_entries_exact.
+
+Theorem section_iff_findings : forall V O Q p, wf_findings V -> wf_findings O -> wf_findings Q ->
+  (has_line (key_line (any_section p)) (generate_report V O Q) <->
+   match p with
+   | AnyVul x => has_finding x V
+   | AnyOpt x => has_finding x O
+   | AnyQa x => has_finding x Q
+   end).
+Proof. exact full_section_iff_spec. Qed.
+Print Assumptions section_iff_findings.
+
+(* the finite side conditions on the current texts that the theorems above rest on, recomputed
+   whenever gen/Sections.v changes: for all 30 patterns at once - the marker `### Lines` and the
+   blank line are no key lines or headings; scanning a section text meets no `### Lines` line, no
+   heading, and ends on its own key line; every key line is no marker, not blank, not entry-shaped,
+   occurs in its own text and in no other; no heading occurs in any text *)
+Theorem side_conditions_hold :
+  cat_okb AnyPattern any_idx any_all all_keys vul_headings any_section = true.
+Proof. exact full_cat_ok. Qed.
+Print Assumptions side_conditions_hold.
 
 (* ---- the hypotheses are satisfiable by a non-trivial map: awkward file names, several files *)
 Definition ex_c11 : findings QualityAssurance :=
